@@ -12,11 +12,11 @@ PKG="$3"
 cd "$W" || exit 2
 cp "$D" "$PKG/zz_demo_test.go"
 TESTS=$(grep -o '^func Test[A-Za-z0-9_]*' "$PKG/zz_demo_test.go" | sed 's/func //' | paste -sd'|')
-if ! go test -count=1 -run "^($TESTS)\$" ./$PKG/ > /tmp/mutval_clean.log 2>&1; then echo "RESULT demo-fails-on-clean-tree"; tail -5 /tmp/mutval_clean.log; exit 1; fi
+if ! go test $RACEFLAG -count=1 -run "^($TESTS)\$" ./$PKG/ > /tmp/mutval_clean.log 2>&1; then echo "RESULT demo-fails-on-clean-tree"; tail -5 /tmp/mutval_clean.log; exit 1; fi
 rm "$PKG/zz_demo_test.go"
 if ! git apply "$P" 2>/dev/null; then echo "RESULT patch-does-not-apply"; exit 1; fi
 if ! go build ./... >/dev/null 2>&1 || ! go build -tags verif ./... > /dev/null 2>&1; then echo "RESULT does-not-build"; exit 1; fi
 if ! go test -count=1 ./... > /tmp/mutval_suite.log 2>&1; then echo "RESULT suite-fails-with-patch"; grep -E "^(---|FAIL)" /tmp/mutval_suite.log | head -5; exit 1; fi
 cp "$D" "$PKG/zz_demo_test.go"
-if go test -count=1 -run "^($TESTS)\$" ./$PKG/ > /tmp/mutval_mut.log 2>&1; then echo "RESULT demo-passes-with-patch (not a demonstration)"; exit 1; fi
+if go test $RACEFLAG -count=1 -run "^($TESTS)\$" ./$PKG/ > /tmp/mutval_mut.log 2>&1; then echo "RESULT demo-passes-with-patch (not a demonstration)"; exit 1; fi
 echo "RESULT valid (suite passes with patch; demo fails with patch, passes without) pkg=$PKG tests=$TESTS"
